@@ -250,6 +250,8 @@ def main(argv):
             continue
         rr = P.replay_run(cdir, k['harness'], dict(k['witness']), kf_off=True)
         still = bool(rr and (k['label'] in rr['fails'] or (k.get('panic') and rr['panic'])))
+        if k.get('panic'):
+            k = dict(k, label='aborts (panic)')
         if still:
             kf_lines.append('KNOWN-FINDING: property=%s %s [%s] %s' % (prop, k['id'], k['label'], k['what']))
         else:
